@@ -126,6 +126,11 @@ class ProcessWorker(Worker):
                     self._result = self._comms.parent_end.get()
                 except queue.Empty:
                     break
+                except Exception:
+                    # the message is truncated (the child was killed while sending it) or
+                    # cannot be rebuilt in this process - there is no result to report
+                    logger.exception('Could not receive the result from the child')
+                    break
 
             if self._result is None:
                 self._result = (False, None)
